@@ -469,7 +469,7 @@ def main():
         if rank > 0:
             est_n = F.count(tier, lv) * nctx
             est = est_n / rate if rate else 0
-            if spent() + est * 1.25 > chk.budget * 0.9:
+            if spent() + est * 1.5 > chk.budget * 0.85:
                 chk.cap("%s: size %s not run (estimated %d programs, %.0fs; budget)" % (fam, lv, est_n, est))
                 capped.add(fam)
                 continue
